@@ -4,4 +4,5 @@ TARGETS = {
     "c01_movegen": dict(flavours=["seq", "fast"], src=["harness/c01_movegen.cpp"], net="stub"),
     "c02_position": dict(flavours=["seq", "fast"], src=["harness/c02_position.cpp"], net="stub"),
     "c15_revmovegen": dict(flavours=["seq", "fast"], src=["harness/c15_revmovegen.cpp"], net="stub"),
+    "c20_csp": dict(flavours=["seq", "fast"], src=["harness/c20_csp.cpp"], net="stub"),
 }
